@@ -9,7 +9,7 @@ propmap={
  'UNSUBSCRIBE from a subscription':('C01','D10a'),'keep event-history subscriptions':('C20','D10b'),'do not leak a d.calls':('C05','D11'),
  'cleanSessionDetails must not':('C12','D12'),'cryptosign':('C09','D13'),'count_subscribers answers':('C18','D16'),'testament for a session':('C05','D21'),
  'refusal of an ERROR':('C10','D22'),'UNREGISTER of a registration':('C03','D24'),'kill-mode canceled':('C02','D28'),'must not close a session':('C04','D5'),
- 'malformed payload-passthru':('C17','D17'),'release reply slot':('C16','D20'),'only Close() closes':('C17','D19'),'keep peers of shut-down':('C06','D14'),
+ 'malformed payload-passthru':('C17','D17'),'release reply slot':('C16','D20'),'acknowledged Publish that is not sent':('C16','D29'),'only Close() closes':('C17','D19'),'keep peers of shut-down':('C06','D14'),
  'call timeout timers':('C06','D4'),'after Router.Close fail cleanly':('C06','D3'),'realm that is being removed':('C06','D15'),
  'spell wamp.subscription.count_subscribers':('C18','D25'),'loose URI check rejects':('C19','D27'),
 }
